@@ -29,6 +29,7 @@ def run(rep: Report, repo: Repo):
     state_transfer(rep, repo, mod)
     lane_flow(rep, repo, mod)
     dataset_selection(rep, repo, mod)
+    thread_guards(rep, repo, mod)
     options(rep, repo)
     mock_api(rep, repo)
 
@@ -330,6 +331,85 @@ def lane_flow(rep, repo, mod):
         rep.violate('C06.lane', mod, cs, 'self.s[3:, s_loc, vector] = wave_capture_cpu(self.c, c_loc, c_len, vector, ...)', 'WaveSim.c_to_s must capture lane `vector` of the waveform into lane `vector` of s', node=cs)
 
 
+def thread_guards(rep, repo, mod):
+    """Which threads of an over-sized grid do work? Evaluated (Engine M): the head of each GPU kernel (thread index, range guards, slot
+    look-up) is run for every thread of a grid that over-covers the arrays, for every allocation pattern of two slots; a thread must go
+    on to the kernel body exactly when its lane and its slot / op exist (and the slot is allocated)."""
+    import itertools
+    from kvstatic import minieval
+    rep.rule('C06.guards', 'GPU kernels: a thread proceeds into the kernel body iff its lane is inside the lane range and its slot / op index inside the array and allocated '
+                           '(every thread of an over-sized grid evaluated)')
+    NS = minieval.NS
+
+    def head_outcome(fdef, env):
+        """'return' if the head returns, 'body' as soon as a statement beyond the head (not an assignment from plain data / a guard) is met"""
+        body = body_no_doc(fdef)
+
+        def is_guard(st):
+            return isinstance(st, ast.If) and not st.orelse and len(st.body) == 1 and isinstance(st.body[0], ast.Return)
+        prefix = []
+        for st in body:
+            if isinstance(st, ast.Assign) or is_guard(st):
+                prefix.append(st)
+            else:
+                break
+        last = max((k for k, st in enumerate(prefix) if is_guard(st)), default=-1)
+        for st in prefix[:last + 1]:        # the head ends with the last range guard
+            simple = isinstance(st, ast.Assign)
+            guard = is_guard(st)
+            if isinstance(st, ast.Assign) and 'cuda.grid' in cz(st.value):
+                minieval.bind(st.targets[0], (env['__x'], env['__y']), env)
+                continue
+            if not (simple or guard):
+                return 'body'
+            try:
+                minieval.run([st], env)
+            except minieval.Returned:
+                return 'return'
+            except (IndexError, KeyError, TypeError) as e:
+                return type(e).__name__
+        return 'body'
+    SIMS, NSLOT = 2, 2
+    specs = []
+    # (kernel, parameter values as a function of the slot allocation, expectation)
+    for alloc in itertools.product((True, False), repeat=NSLOT):
+        off = 5
+        c_locs = [-1] * off + [(10 + k if a else -1) for k, a in enumerate(alloc)]
+        arr_c = NS(shape=(40, SIMS))
+        arr_s = NS(shape=(11, NSLOT, SIMS))
+        specs.append(('wave_assign_gpu', dict(c=arr_c, s=arr_s, c_locs=c_locs, ppi_offset=off), lambda x, y, alloc=alloc: x < SIMS and y < NSLOT and alloc[y]))
+        specs.append(('wave_capture_gpu', dict(c=arr_c, s=arr_s, c_locs=c_locs, c_caps=[4] * len(c_locs), ppo_offset=off, time=1.0, s_sqrt2=0.0, seed=1),
+                      lambda x, y, alloc=alloc: x < SIMS and y < NSLOT and alloc[y]))
+    specs.append(('wave_eval_gpu', dict(ops=[[0] * 9] * 7, op_start=3, op_stop=5, cbuf=None, c_locs=[], c_caps=[], abuf=None, sim_start=0, sim_stop=SIMS,
+                                        delays=None, simctl_int=None, seed=1), lambda x, y: x < SIMS and y < 2))
+    for name in sorted({n for n, _e, _w in specs}):
+        fdef = mod.func(name)
+        bad = None
+        n = 0
+        try:
+            for nm, params, want in specs:
+                if nm != name:
+                    continue
+                for x in range(SIMS + 2):
+                    for y in range(NSLOT + 2):
+                        n += 1
+                        env = dict(params)
+                        env.update(__x=x, __y=y)
+                        got = head_outcome(fdef, env)
+                        exp = 'body' if want(x, y) else 'return'
+                        if got != exp and bad is None:
+                            bad = (x, y, {k: v for k, v in params.items() if k in ('c_locs', 'op_start', 'op_stop', 'sim_stop')}, got, exp)
+        except ModelError as e:
+            rep.note(f'C06.guards: head of {name} outside the evaluator subset ({e})')
+            continue
+        ok = bad is None
+        rep.ob('C06.guards', f'{name}: {n} threads evaluated', ok, evals=n)
+        if not ok:
+            rep.violate('C06.guards', mod, fdef, f'thread guards of {name}', f'{name}: thread (x={bad[0]}, y={bad[1]}) with {bad[2]} ({SIMS} lanes, {NSLOT} slots / ops 3..4) ends in `{bad[3]}` but must '
+                        f'end in `{bad[4]}`: a thread outside the arrays (or of an unallocated slot) must return before touching memory, every other thread must do its work '
+                        f'(otherwise the GPU path computes something else than the CPU path)', node=fdef)
+
+
 def dataset_selection(rep, repo, mod):
     rep.rule('C06.dataset', 'delay dataset: skipped for a single dataset; mode 0 -> delays[seed], mode 1 -> delays[simctl_int[0]], else hash-picked index modulo len(delays); afterwards only the selected slice is used')
     K = Kernel(repo)
@@ -566,6 +646,7 @@ def depends(rep, repo):
     from checks import c07, c08
     c07.schedule_rules(rep, repo)
     c08.map_rules(rep, repo)
+    c07.launches(rep, repo)        # level launches and the pure-Python grid launcher standing in for CUDA (C07.launch)
 
 
 def thorough(rep, repo):
